@@ -277,7 +277,7 @@ theorem invL_lookupLoop (s : St) (t : Nat) (h : InvLx s t) (ht : t < s.ts.length
         intro hm
         have := h.dcl _ hm
         omega
-      · refine ⟨{ loc := s.locOf t, owner := t, epoch := s.mon.epochOf (s.locOf t), outcome := none }, ?_, rfl⟩
+      · refine ⟨{ loc := s.locOf t, owner := t, epoch := s.mon.epochOf (s.locOf t), minEpoch := s.mon.minEpochOf (s.locOf t), outcome := none }, ?_, rfl⟩
         simp only [emit, Mon.applyEv, setPc, List.getElem?_concat_length]
   | some ent =>
     cases ent with
